@@ -162,7 +162,15 @@ def correspond(ctx, rows, const, tag):
         o = f"([{r['kind']}; ({charge})]%Z, @nil Z)"
         cases.append((q, o))
         idx.append(k)
-    fails, err = vlib.coq_eval_cases(tag, IMPORTS, "hl_obs", "hl_eqb", cases, shard=200)
+    # the push loops cost time proportional to their count in the model (up to 2 million steps for Vec<Bool>):
+    # spread them over the shards instead of leaving them next to each other
+    k = 16
+    cost = lambda j: -(rows[idx[j]]["size"] if rows[idx[j]]["op"] in LOOPS and rows[idx[j]]["size"] > 0 else 0)
+    order = sorted(range(len(cases)), key=cost)
+    order = [j for c in range(k) for j in order[c::k]]
+    cases = [cases[j] for j in order]
+    idx = [idx[j] for j in order]
+    fails, err = vlib.coq_eval_cases(tag, IMPORTS, "hl_obs", "hl_eqb", cases, shard=max(50, -(-len(cases) // k)))
     if err:
         ctx.broken.append("correspondence C10: model evaluation failed")
         ctx.log(err[-3000:])
